@@ -244,6 +244,33 @@ def premises(ctx):
                     bad_w.append((bn, strip_generics(t.callee)[-40:]))
             ctx.check(not bad_w, 'C05-1.premises', key + '|scan writes only its index', 'the scan loop writes no memory besides its own index variable',
                       'the scan loop writes memory: %s' % bad_w[:3], ctx.where(b, sc.span))
+            # P6: the scan moves TOWARDS the sentinel, one element at a time: every index variable of the innermost loop that the unchecked
+            #     read uses is, on every back edge, either unchanged or itself + 1 (a scan that steps the other way leaves the buffer)
+            ivs = list(dict.fromkeys(x for x in walk(sc.argvals[1]) if x[0] == 'loopvar' and x[2] and x[2][0][0] in ('local', 'val') and len(x[2]) == 1))
+            step_ok = bool(ivs)
+            seen_step = ''
+            for v in ivs:
+                plus = False
+                for st_ in an.loop_back.get(v[1], []):
+                    nv = an.load(v[2], st_)
+                    lv = []
+                    def _lv(t):
+                        if t[0] == 'gamma':
+                            _lv(t[2]); _lv(t[3])
+                        else:
+                            lv.append(t)
+                    _lv(nv)
+                    for x in lv:
+                        if x == v:
+                            continue
+                        if x[0] == 'add' and len(x) == 3 and v in x[1:] and ONE in x[1:]:
+                            plus = True
+                        else:
+                            step_ok = False
+                            seen_step = show(x, an.names)[:100]
+                step_ok = step_ok and plus
+            ctx.check(step_ok, 'C05-1.premises', key + '|unit step towards the sentinel', 'the scan index advances by exactly one element per iteration',
+                      'scan index update: %s' % (seen_step or 'no index variable of the scan loop found in %s' % show(sc.argvals[1], an.names)[:80]), ctx.where(b, sc.span))
             # P1/P2: sentinel in place before the scan: either an unchecked store at index s that dominates the loop, with an abort-guard
             #        s < len(slice) (or len == s followed by a push), or an abort-guard that the last element equals the sentinel
             same = lambda a_, b_: a_ == b_ or (a_[0] == 'ref' and b_[0] == 'ref' and a_[1] == b_[1])
